@@ -1,5 +1,59 @@
-"""Regenerate coq/Gen/*_gen.v from the current working tree of /repo (fail closed)."""
+"""Regenerate coq/Gen/*_gen.v from the current working tree of /repo (fail closed).
+
+Every module harness/gen/<name>.py defines `generate() -> {filename: coq_text}` (filenames ending in `_gen.v`)
+and may use `dump(expr)` below to evaluate Python expressions inside a fresh interpreter that imports the
+working tree.  A file is rewritten only when its content changes, so an unchanged table costs no rebuild.
+Anything a generator cannot serialise must raise: the caller records it as a failed obligation.
+"""
+import importlib
+import json
+import os
+import pkgutil
+import subprocess
+
+VERIF = os.path.dirname(os.path.dirname(os.path.abspath(__file__)))
+REPO = os.environ.get("NV_REPO", "/repo")
+GEN_DIR = os.path.join(VERIF, "coq", "Gen")
+
+
+def dump(script):
+    """Run `script` (Python source that prints one JSON document) against the working tree; return the JSON."""
+    env = dict(os.environ)
+    env.update({"PYTHONPATH": REPO, "PYTHONHASHSEED": "0", "PYTHONDONTWRITEBYTECODE": "1"})
+    p = subprocess.run(["/venv/bin/python", "-B", "-c", script], env=env, stdout=subprocess.PIPE,
+                       stderr=subprocess.PIPE, timeout=300, cwd="/")
+    if p.returncode != 0:
+        raise RuntimeError("table dump failed: " + p.stderr.decode("utf-8", "replace")[-800:])
+    return json.loads(p.stdout.decode())
+
+
+def zlit(i):
+    return "(%d)" % i if i < 0 else "%d" % i
+
+
+def zlist(xs):
+    return "[" + "; ".join(zlit(x) for x in xs) + "]"
+
+
+def coq_string(s):
+    """Coq string literal for an ASCII string (doubles the quote)."""
+    assert all(32 <= ord(c) < 127 for c in s), "non-printable in table string: %r" % s
+    return '"' + s.replace('"', '""') + '"'
 
 
 def main():
-    return {}
+    os.makedirs(GEN_DIR, exist_ok=True)
+    from . import gen as genpkg
+    summary = {}
+    for m in sorted(pkgutil.iter_modules(genpkg.__path__), key=lambda x: x.name):
+        mod = importlib.import_module("harness.gen." + m.name)
+        files = mod.generate()
+        for fn, text in files.items():
+            assert fn.endswith("_gen.v")
+            path = os.path.join(GEN_DIR, fn)
+            old = open(path).read() if os.path.exists(path) else None
+            if old != text:
+                with open(path, "w") as f:
+                    f.write(text)
+            summary[fn] = {"bytes": len(text), "changed": old != text}
+    return summary
